@@ -288,6 +288,24 @@ def run(job, seed):
                 acc.case(space, bool(x))
                 _check(acc, enf, space, CONTEXTS[:2], target, rl, exp,
                        {'x': '%(k)s', 'target': target, 'roles': rl})
+            # the target LACKS the key while the credentials have an entry of
+            # that very name holding a role the caller has: still a missing
+            # key, still a denial
+            for target in ({}, {'K': x}, {'k ': x}):
+                creds = {'roles': [x, 'other'], 'user_id': 'u', 'k': x,
+                         'project_id': x}
+                acc.case(space, bool(x))
+                for name, tr in CONTEXTS[:2]:
+                    acc.ev()
+                    got = world.decide(enf, name, dict(target), dict(creds))
+                    if got != ('ok', tr(False)):
+                        acc.violation(
+                            '%s|%s|key-only-in-credentials' % (space, name),
+                            'role:%%(k)s with target %r and credentials %r: '
+                            'got %r, expected %r' % (target, creds, got,
+                                                     tr(False)),
+                            {'x': '%(k)s', 'target': target, 'creds': creds},
+                            tr(False), got, space)
         acc.sample(space, {'x': 'a:B', 'roles': ['A:b']})
     elif space == 'debuglog':
         # the same decisions with every oslo_policy logger at DEBUG and a
